@@ -479,3 +479,32 @@ func iteSubterms(t string) []string {
 	walk(t)
 	return out
 }
+
+// stripBoundItes makes a trigger term acceptable as a pattern: a conditional sub-term that
+// mentions a bound variable (e.g. a map lookup `(ite present value zero)`) is replaced by its
+// branch that mentions the bound variable (triggers need not be equivalent to the term, they
+// only select instances).
+func stripBoundItes(t string) string {
+	if !strings.Contains(t, "(ite ") || !strings.HasPrefix(t, "(") {
+		return t
+	}
+	a := topArgs(t)
+	if len(a) == 0 {
+		return t
+	}
+	if a[0] == "ite" && len(a) == 4 && strings.Contains(t, "|$") {
+		if strings.Contains(a[2], "|$") {
+			return stripBoundItes(a[2])
+		}
+		if strings.Contains(a[3], "|$") {
+			return stripBoundItes(a[3])
+		}
+		return t
+	}
+	out := make([]string, len(a))
+	out[0] = a[0]
+	for i := 1; i < len(a); i++ {
+		out[i] = stripBoundItes(a[i])
+	}
+	return "(" + strings.Join(out, " ") + ")"
+}
